@@ -103,7 +103,7 @@ func establisherHandoff(c *kit.Ctx) {
 	}
 	// (b)
 	for _, d := range kit.Calls(est, kit.M("", "*keyRegionCache", "del")) {
-		c.Check(!kit.Reaches(d.(ssa.Instruction), put.(ssa.Instruction)), est, "no-del-before-put", d.Pos(), "regions.del is only called where regions.put is not reached afterwards",
+		c.Check(!kit.MayReach(d.(ssa.Instruction), put.(ssa.Instruction)), est, "no-del-before-put", d.Pos(), "regions.del is only called where regions.put is not reached afterwards",
 			"the original region is deleted from the cache before regions.put: put's age rule no longer sees it, so a stale meta answer carrying an older region evicts nothing and is inserted over a newer cached region")
 	}
 	// (c)
@@ -1198,6 +1198,10 @@ func unsentCallsAreCleared(c *kit.Ctx) {
 				st, ok := x.(*ssa.Store)
 				if !ok {
 					return false
+				}
+				// the action index of this call recorded directly in the action
+				if fa, ok := st.Addr.(*ssa.FieldAddr); ok && kit.FieldVar(fa.X.Type(), fa.Field).Name() == "Index" && strings.HasSuffix(fa.X.Type().String(), "pb.Action") {
+					return true
 				}
 				ia, ok := st.Addr.(*ssa.IndexAddr)
 				if !ok {
